@@ -1127,7 +1127,9 @@ CWRAPPER_OUTPUT_TYPE vecbasic_get(CVecBasic *self, size_t n, basic result)
 {
     CWRAPPER_BEGIN
 
-    SYMENGINE_ASSERT(n < self->m.size());
+    if (n >= self->m.size()) {
+        return SYMENGINE_RUNTIME_ERROR;
+    }
     basic_rcp(result) = self->m[n];
 
     CWRAPPER_END
@@ -1136,7 +1138,9 @@ CWRAPPER_OUTPUT_TYPE vecbasic_get(CVecBasic *self, size_t n, basic result)
 CWRAPPER_OUTPUT_TYPE vecbasic_set(CVecBasic *self, size_t n, const basic s)
 {
     CWRAPPER_BEGIN
-    SYMENGINE_ASSERT(n < self->m.size());
+    if (n >= self->m.size()) {
+        return SYMENGINE_RUNTIME_ERROR;
+    }
     self->m[n] = basic_rcp(s);
     CWRAPPER_END
 }
@@ -1144,7 +1148,9 @@ CWRAPPER_OUTPUT_TYPE vecbasic_set(CVecBasic *self, size_t n, const basic s)
 CWRAPPER_OUTPUT_TYPE vecbasic_erase(CVecBasic *self, size_t n)
 {
     CWRAPPER_BEGIN
-    SYMENGINE_ASSERT(n < self->m.size());
+    if (n >= self->m.size()) {
+        return SYMENGINE_RUNTIME_ERROR;
+    }
     self->m.erase(self->m.begin() + n);
     CWRAPPER_END
 }
